@@ -627,6 +627,9 @@ def run(ctx):
     from .. import bcsupport as _bcs
 
     _bcs.bc_support(ctx)  # (tools/wiring.py) which barycentric cells carry a BC / RBC function: the whole vertex patches of its edge
+    from .. import spaces as _spc
+
+    _spc.paired_defaults(ctx)  # RWG / SNC and BC / RBC are built from the same options under the same keywords
 
 
 def _builder_chains(fn):
